@@ -74,7 +74,27 @@ def records_for(inst, kernels, seed=0):
            "border_mask": view("border_mask", lambda: lin(dm.border)),
            "border_grid": view("border_grid", lambda: _cells_of_grid(dg.border, h, w, sy, sx, oy, ox))}
     rec["raised"] = raised
+    sets_first = rec
     recs.append(rec)
+    if len(u) > 1:
+        # history: the derive objects HELD since before are read again after the mask was edited in place (one unmasked pixel
+        # masked): every view describes the current entries
+        k0 = u[(len(u) * 7) // 11]
+        mask[k0 // w, k0 % w] = True
+        u2 = [x for x in u if x != k0]
+        raised = []
+        rec2 = {"p": "C10", "api": "sets", "h": h, "w": w, "u": u2, "edited_in_place": True,
+                "edge_slim": view("edge_slim", lambda: np.asarray(di.edge_slim).astype(int).tolist()),
+                "edge_native": view("edge_native", lambda: np.asarray(di.edge_native).astype(int).reshape(-1, 2).tolist()),
+                "edge_mask": view("edge_mask", lambda: lin(dm.edge)),
+                "edge_grid": view("edge_grid", lambda: _cells_of_grid(dg.edge, h, w, sy, sx, oy, ox)),
+                "border_slim": view("border_slim", lambda: np.asarray(di.border_slim).astype(int).tolist()),
+                "border_native": view("border_native", lambda: np.asarray(di.border_native).astype(int).reshape(-1, 2).tolist()),
+                "border_mask": view("border_mask", lambda: lin(dm.border)),
+                "border_grid": view("border_grid", lambda: _cells_of_grid(dg.border, h, w, sy, sx, oy, ox))}
+        rec2["raised"] = list(raised)
+        recs.append(rec2)
+        mask[k0 // w, k0 % w] = False  # restore: the remaining records are about the instance's own mask
     eb_raised = []
     try:
         eb = lin(dm.edge_buffed)
